@@ -29,6 +29,8 @@ func runC11(c *Ctx, r *Report) {
 	optionForwarding(c, r, "R-C11.7", append(loaderFetchSpecs(), constructorLoaderSpecs()...), "Timeout", "Concurrency")
 	r.Doc("R-C11.8", "nothing in the decode closure a fetch worker runs can panic on a malformed block (a panic in a worker goroutine ends the process, it is not a tolerated fault)")
 	importRules(c, r, "C12", []string{"R-C12.1", "R-C12.2", "R-C12.3", "R-C12.4"}, "R-C11.8")
+	r.Doc("R-C11.9", "the loops of the fetcher (queueing links, offering hashes) process every element")
+	loopsComplete(c, r, "R-C11.9", func(fn *Fn) bool { return inPkgs(c.P, fn, "entry") && rootNamed(fn, "processQueue", "addNextEntry", "addHashesToQueue", "Fetch", "updateClock") }, "hashes after the point where the loop stops are never requested")
 
 	r.Doc("control", "engine positive/negative controls analysed on every run")
 	lockControls(c, r, "control")
